@@ -1,7 +1,7 @@
 SPECIFICATION Spec
 CONSTANTS
   MaxEntries = 1
-  Pres = {"a", "_a", "gop_autogen", "main"}
+  Pres = {"a", "_a", "gop_autogen", "gop_autogen_x", "gop_autogenx", "gop_autogen_x_test", "main"}
   Exts = {".xgo", ".gop", ".go", ".gox", ".spx", ".gmx", ".gsh", ".txt", "_yap.gox"}
   CKs = {"default", "none", "gox", "yap", "txtproj", "txtwork", "projnotok"}
   Modes = {"plain", "goasxgo"}
